@@ -246,7 +246,7 @@ func runC19(c *core.Ctx) {
 	c.Doc("list-new-order", 1, "list.New prepends seq[i] for i = len-1 .. 0")
 	c.Doc("fold", 1, "Fold: x := Empty(); while !IsEmpty(s) { x = Combine(x, Head(s)); s = Tail(s) }")
 
-	c.Doc("loops-progress", 2, "no loop of the packages can go round without changing anything")
+	c.Doc("loops-progress", 1, "no loop of the packages can go round without changing anything")
 	loopsProgress(c, "loops-progress", "internal/seq", "internal/seq/list", "internal/seq/slice")
 	newLenProved = nil
 	listNewOrder(c)
